@@ -302,3 +302,32 @@ package cl
 //@ func cl.(*control).dirCond
 //@   property C15
 //@   on-store argPos#1 consumes-only-without-parameter: colon || at || n < 0
+
+// ---------------------------------------------------------------------------
+// C16: a hash table is a finite map.
+//@ func cl.(*Remhash).Call
+//@   property C16
+//@   ensures deleted: !has(as(args[1], slip.HashTable), args[0])
+//@   ensures reported: (result != nil) <==> old(has(as(args[1], slip.HashTable), args[0]))
+//@   ensures count: len(as(args[1], slip.HashTable)) == old(len(as(args[1], slip.HashTable))) - (old(has(as(args[1], slip.HashTable), args[0])) ? 1 : 0)
+
+//@ define table(x) = as(x, slip.HashTable)
+
+// gethash returns the stored value and whether the key is present; it does not change the table
+//@ func cl.(*Gethash).Call
+//@   property C16
+//@   ensures values: is(result, slip.Values) && len(as(result, slip.Values)) == 2
+//@   ensures value: as(result, slip.Values)[0] == (has(table(args[1]), args[0]) ? table(args[1])[args[0]] : nil)
+//@   ensures present-flag: (as(result, slip.Values)[1] != nil) <==> has(table(args[1]), args[0])
+//@   ensures unchanged: len(table(args[1])) == old(len(table(args[1]))) && has(table(args[1]), args[0]) == old(has(table(args[1]), args[0]))
+
+// (setf gethash): afterwards a lookup of the key finds exactly the stored value; the count grows by one only for a new key
+//@ func cl.(*Gethash).Place
+//@   property C16
+//@   ensures stored: has(table(args[1]), args[0]) && table(args[1])[args[0]] == value
+//@   ensures count: len(table(args[1])) == old(len(table(args[1]))) + (old(has(table(args[1]), args[0])) ? 0 : 1)
+
+// hash-table-count is the number of keys
+//@ func cl.(*HashTableCount).Call
+//@   property C16
+//@   ensures count: is(result, slip.Fixnum) && as(result, slip.Fixnum) == len(table(args[0]))
